@@ -2,14 +2,39 @@
 
 package rest
 
-// C06 probe (temporary): drive explicit scenarios through ISGR and print what both peers hold.
+// C06 -- Replicating peers converge to the same documents.
+//
+// Two real Sync Gateway databases (RestTesters on separate buckets) joined by inter-Sync-Gateway
+// replication; the active side owns the replication and the default conflict resolver.
+//
+// Streams:
+//   corpus / random (revision-tree sub-protocol, Coq cases): scenarios of <= 10 steps over 3 documents:
+//       edits, deletes, resurrections on both sides; one-shot pull / push replications (fresh id);
+//       continuous push-and-pull and pull sessions that are started, stopped and restarted, every write
+//       made while a session runs being followed by a wait for quiescence.  After every step the current
+//       revision / tombstone flag / body of every document on both sides is recorded; at the end the
+//       replication is run to completion (pull, then push), then run AGAIN (must transfer nothing), and
+//       the complete revision trees are recorded.  The Coq side re-runs the model on the same steps.
+//   burst (revision-tree, monitors only): writes on both sides WITHOUT waiting while a continuous
+//       push-and-pull replication runs; only quiescent observables are compared.
+//   vv (version-vector sub-protocol, monitors only): the same scenario shapes under the default (v4) protocol.
+//   resolver (Coq cases + monitor): db.DefaultConflictResolver on pairs of (deleted, revision id), both
+//       orientations.
+//
+// Monitors (boolean reflections of the property, evaluated on what the implementation did):
+//   peers_converged         after the final pull;push every document has the same current revision id
+//                           (current version under vv), body and tombstone flag on both admin APIs
+//   caught_up_no_transfer   re-running the caught-up replication reads / writes zero documents
+//   resolver_symmetric      both orientations of DefaultConflictResolver keep the same revision
+//   admin_api_consistent    the admin REST view of a document equals the stored document
 
 import (
 	"encoding/json"
 	"fmt"
+	"math/big"
 	"net/http"
-	"os"
 	"sort"
+	"strconv"
 	"strings"
 	"testing"
 	"time"
@@ -18,23 +43,33 @@ import (
 	"github.com/couchbase/sync_gateway/db"
 )
 
+// ---------------------------------------------------------------- environment
+
 type c06Env struct {
-	t       *testing.T
-	act     *RestTester
-	pas     *RestTester
-	url     string
-	nrepl   int
-	infra   []string
-	started time.Time
+	t     *testing.T
+	act   *RestTester
+	pas   *RestTester
+	url   string
+	v4    bool
+	nrepl int
+	infra []string
+	docs  []string // document ids, index = model document number
+	sess  string   // id of the continuous replication, "" if none was created
+	sdir  string   // "both" | "pull"
+	srun  bool
 }
 
-func c06NewEnv(t *testing.T, v4 bool) *c06Env {
+func c06NewEnv(t *testing.T, v4 bool, ndocs int, tag string) *c06Env {
 	proto := db.CBMobileReplicationV3.SubprotocolString()
 	if v4 {
 		proto = db.CBMobileReplicationV4.SubprotocolString()
 	}
 	peers := SetupISGRPeersWithOpts(t, TestISGRPeerOpts{ActivePeerSupportedBLIPSubProtocols: []string{proto}})
-	return &c06Env{t: t, act: peers.ActiveRT, pas: peers.PassiveRT, url: peers.PassiveDBURL, started: time.Now()}
+	e := &c06Env{t: t, act: peers.ActiveRT, pas: peers.PassiveRT, url: peers.PassiveDBURL, v4: v4}
+	for i := 0; i < ndocs; i++ {
+		e.docs = append(e.docs, fmt.Sprintf("c06%s_d%d", tag, i))
+	}
+	return e
 }
 
 func (e *c06Env) rt(side int) *RestTester {
@@ -44,12 +79,33 @@ func (e *c06Env) rt(side int) *RestTester {
 	return e.pas
 }
 
+func (e *c06Env) fail(format string, args ...any) {
+	e.infra = append(e.infra, fmt.Sprintf(format, args...))
+}
+
+type c06Node struct {
+	ID, Parent string
+	Deleted    bool
+}
+
 type c06Obs struct {
 	Exists  bool
 	Rev     string
+	CV      string
 	Deleted bool
 	Body    string
-	Tree    []string // "id<parent{d}" sorted
+	Seq     uint64
+	Tree    []c06Node
+}
+
+func (o c06Obs) state() string {
+	if !o.Exists {
+		return "absent"
+	}
+	if o.Deleted {
+		return "deleted"
+	}
+	return "live"
 }
 
 func (e *c06Env) observe(side int, docID string) c06Obs {
@@ -59,113 +115,830 @@ func (e *c06Env) observe(side int, docID string) c06Obs {
 	if err != nil || doc == nil {
 		return c06Obs{}
 	}
-	o := c06Obs{Exists: true, Rev: doc.GetRevTreeID(), Deleted: doc.IsDeleted()}
+	o := c06Obs{Exists: true, Rev: doc.GetRevTreeID(), Deleted: doc.IsDeleted(), Seq: doc.Sequence}
+	if doc.HLV != nil {
+		o.CV = doc.HLV.GetCurrentVersionString()
+	}
 	bb, _ := doc.BodyBytes(ctx)
 	o.Body = string(bb)
 	for id, ri := range doc.History {
-		s := id + "<" + ri.Parent
-		if ri.Deleted {
-			s += "{d}"
-		}
-		o.Tree = append(o.Tree, s)
+		o.Tree = append(o.Tree, c06Node{ID: id, Parent: ri.Parent, Deleted: ri.Deleted})
 	}
-	sort.Strings(o.Tree)
+	sort.Slice(o.Tree, func(i, j int) bool { return o.Tree[i].ID < o.Tree[j].ID })
 	return o
 }
 
-// write: PUT (create / update / resurrect) or DELETE on the current revision
-func (e *c06Env) write(side int, docID string, body string, del bool) (int, string) {
+// the admin REST view of a document: (status, rev, cv, body without the underscore properties)
+func (e *c06Env) adminView(side int, docID string) (int, string, string, string) {
+	rt := e.rt(side)
+	resp := rt.SendAdminRequest(http.MethodGet, "/"+rt.GetSingleKeyspace()+"/"+docID+"?show_cv=true", "")
+	if resp.Code != 200 {
+		return resp.Code, "", "", resp.BodyString()
+	}
+	var m map[string]any
+	if err := json.Unmarshal(resp.BodyBytes(), &m); err != nil {
+		return resp.Code, "", "", "unparsable"
+	}
+	rev, _ := m["_rev"].(string)
+	cv, _ := m["_cv"].(string)
+	for k := range m {
+		if strings.HasPrefix(k, "_") {
+			delete(m, k)
+		}
+	}
+	b, _ := json.Marshal(m)
+	return 200, rev, cv, string(b)
+}
+
+const (
+	c06Edit = iota
+	c06Delete
+	c06Resurrect
+)
+
+// a local write through the admin REST API, always on the current revision
+func (e *c06Env) write(side int, docID string, kind int, body string) bool {
 	rt := e.rt(side)
 	cur := e.observe(side, docID)
 	path := "/" + rt.GetSingleKeyspace() + "/" + docID
 	var resp *TestResponse
-	if del {
+	switch kind {
+	case c06Delete:
 		resp = rt.SendAdminRequest(http.MethodDelete, path+"?rev="+cur.Rev, "")
-	} else if cur.Exists && !cur.Deleted {
-		resp = rt.SendAdminRequest(http.MethodPut, path+"?rev="+cur.Rev, body)
-	} else {
+	case c06Edit:
+		if cur.Exists {
+			resp = rt.SendAdminRequest(http.MethodPut, path+"?rev="+cur.Rev, body)
+		} else {
+			resp = rt.SendAdminRequest(http.MethodPut, path, body)
+		}
+	default:
 		resp = rt.SendAdminRequest(http.MethodPut, path, body)
 	}
-	var r struct {
-		Rev string `json:"rev"`
+	if resp.Code != 200 && resp.Code != 201 {
+		e.fail("write kind=%d on %s side %d: %d %s", kind, docID, side, resp.Code, resp.BodyString())
+		return false
 	}
-	_ = json.Unmarshal(resp.BodyBytes(), &r)
-	return resp.Code, r.Rev
+	return true
 }
 
-func (e *c06Env) oneShot(dir db.ActiveReplicatorDirection) (db.ReplicationStatus, bool) {
-	e.nrepl++
-	id := fmt.Sprintf("c06r%d", e.nrepl)
-	cfg := &db.ReplicationConfig{ID: id, Direction: dir, Remote: e.url, Continuous: false,
+func (e *c06Env) replStatus(id string) (db.ReplicationStatus, bool) {
+	var st db.ReplicationStatus
+	r := e.act.SendAdminRequest(http.MethodGet, "/{{.db}}/_replicationStatus/"+id, "")
+	if r.Code != 200 {
+		return st, false
+	}
+	if err := json.Unmarshal(r.BodyBytes(), &st); err != nil {
+		return st, false
+	}
+	return st, true
+}
+
+func (e *c06Env) createRepl(id string, dir db.ActiveReplicatorDirection, continuous bool) bool {
+	cfg := &db.ReplicationConfig{ID: id, Direction: dir, Remote: e.url, Continuous: continuous,
 		ConflictResolutionType: db.ConflictResolverDefault, CollectionsEnabled: base.TestsUseNamedCollections()}
 	payload, _ := json.Marshal(cfg)
 	resp := e.act.SendAdminRequest(http.MethodPost, "/{{.db}}/_replication/", string(payload))
 	if resp.Code != http.StatusCreated {
-		e.infra = append(e.infra, fmt.Sprintf("create replication: %d %s", resp.Code, resp.BodyString()))
-		return db.ReplicationStatus{}, false
+		e.fail("create replication %s: %d %s", id, resp.Code, resp.BodyString())
+		return false
 	}
+	return true
+}
+
+func (e *c06Env) waitStatus(id, want string, timeout time.Duration) (db.ReplicationStatus, bool) {
 	var st db.ReplicationStatus
-	deadline := time.Now().Add(60 * time.Second)
+	deadline := time.Now().Add(timeout)
 	for time.Now().Before(deadline) {
-		r := e.act.SendAdminRequest(http.MethodGet, "/{{.db}}/_replicationStatus/"+id, "")
-		if r.Code == 200 {
-			_ = json.Unmarshal(r.BodyBytes(), &st)
-			if st.Status == db.ReplicationStateStopped {
-				return st, true
-			}
+		var ok bool
+		st, ok = e.replStatus(id)
+		if ok && st.Status == want {
+			return st, true
 		}
-		time.Sleep(20 * time.Millisecond)
+		time.Sleep(15 * time.Millisecond)
 	}
-	e.infra = append(e.infra, "one-shot replication did not stop: "+st.Status+" "+st.ErrorMessage)
+	e.fail("replication %s did not reach %q (status %q %s)", id, want, st.Status, st.ErrorMessage)
 	return st, false
 }
 
+// a one-shot replication with a fresh id (no checkpoint is reused), run to completion
+func (e *c06Env) oneShot(dir db.ActiveReplicatorDirection) (db.ReplicationStatus, bool) {
+	e.nrepl++
+	id := fmt.Sprintf("c06one%d", e.nrepl)
+	if !e.createRepl(id, dir, false) {
+		return db.ReplicationStatus{}, false
+	}
+	st, ok := e.waitStatus(id, db.ReplicationStateStopped, 90*time.Second)
+	_ = e.act.SendAdminRequest(http.MethodDelete, "/{{.db}}/_replication/"+id, "")
+	return st, ok
+}
+
+func c06Dir(sdir string) db.ActiveReplicatorDirection {
+	if sdir == "pull" {
+		return db.ActiveReplicatorTypePull
+	}
+	return db.ActiveReplicatorTypePushAndPull
+}
+
+func (e *c06Env) sessionStart(sdir string) bool {
+	if e.sess == "" {
+		e.sess = "c06sess"
+		e.sdir = sdir
+		if !e.createRepl(e.sess, c06Dir(sdir), true) {
+			return false
+		}
+	} else {
+		r := e.act.SendAdminRequest(http.MethodPut, "/{{.db}}/_replicationStatus/"+e.sess+"?action=start", "")
+		if r.Code != 200 {
+			e.fail("start session: %d %s", r.Code, r.BodyString())
+			return false
+		}
+	}
+	_, ok := e.waitStatus(e.sess, db.ReplicationStateRunning, 60*time.Second)
+	e.srun = ok
+	return ok
+}
+
+func (e *c06Env) sessionStop() bool {
+	r := e.act.SendAdminRequest(http.MethodPut, "/{{.db}}/_replicationStatus/"+e.sess+"?action=stop", "")
+	if r.Code != 200 {
+		e.fail("stop session: %d %s", r.Code, r.BodyString())
+		return false
+	}
+	_, ok := e.waitStatus(e.sess, db.ReplicationStateStopped, 60*time.Second)
+	e.srun = false
+	return ok
+}
+
+func c06SeqOf(s string) uint64 {
+	if s == "" {
+		return 0
+	}
+	id, err := db.ParsePlainSequenceID(s)
+	if err != nil {
+		return 0
+	}
+	return id.Seq
+}
+
+// quiescence of a running continuous session: the replicator has processed the latest change of every
+// document in each direction it serves, and nothing (replication counters, sequences, documents) has
+// moved for a while.  Never fails on time alone: a timeout is recorded as an infrastructure problem and
+// the scenario is abandoned.
+func (e *c06Env) waitQuiescent() bool {
+	fingerprint := func() (string, bool) {
+		st, ok := e.replStatus(e.sess)
+		if !ok {
+			return "", false
+		}
+		ctxA, ctxB := e.act.Context(), e.pas.Context()
+		la, _ := e.act.GetDatabase().LastSequence(ctxA)
+		lb, _ := e.pas.GetDatabase().LastSequence(ctxB)
+		caught := true
+		var sb strings.Builder
+		fmt.Fprintf(&sb, "%d/%d/%d/%d/%d/%d/%d/%s/%s/%d/%d|", st.DocsRead, st.DocsCheckedPull, st.RejectedLocal, st.DocsWritten,
+			st.DocsCheckedPush, st.DocWriteFailures, st.DocWriteConflict, st.LastSeqPull, st.LastSeqPush, la, lb)
+		for _, d := range e.docs {
+			a, b := e.observe(0, d), e.observe(1, d)
+			fmt.Fprintf(&sb, "%s,%s;", a.Rev+a.CV, b.Rev+b.CV)
+			if e.sdir == "both" && a.Exists && c06SeqOf(st.LastSeqPush) < a.Seq {
+				caught = false
+			}
+			if b.Exists && c06SeqOf(st.LastSeqPull) < b.Seq {
+				caught = false
+			}
+		}
+		return sb.String(), caught && st.Status == db.ReplicationStateRunning
+	}
+	start := time.Now()
+	last, since := "", time.Now()
+	for time.Since(start) < 60*time.Second {
+		fp, caught := fingerprint()
+		if fp != last {
+			last, since = fp, time.Now()
+		}
+		stable := time.Since(since)
+		if caught && stable > 200*time.Millisecond {
+			return true
+		}
+		if !caught && stable > 5*time.Second {
+			// the status' last sequences did not reach the documents although nothing moves any more
+			// (e.g. a sequence skipped on the feed): accept on stability alone
+			return true
+		}
+		time.Sleep(20 * time.Millisecond)
+	}
+	e.fail("continuous replication did not become quiescent within 60s: %s", last)
+	return false
+}
+
+// ---------------------------------------------------------------- scenarios
+
+type c06Step struct {
+	Kind string // "w" | "pull" | "push" | "start" | "stop" | "restart"
+	Side int
+	Doc  int
+	W    int // c06Edit / c06Delete / c06Resurrect
+	Body int // body key >= 2
+	Dir  string
+}
+
+func (s c06Step) String() string {
+	switch s.Kind {
+	case "w":
+		return fmt.Sprintf("%s%s d%d b%d", map[int]string{c06Edit: "edit", c06Delete: "delete", c06Resurrect: "resurrect"}[s.W], map[int]string{0: "A", 1: "B"}[s.Side], s.Doc, s.Body)
+	case "start":
+		return "start:" + s.Dir
+	}
+	return s.Kind
+}
+
+func c06BodyText(key int) string {
+	switch key {
+	case 0:
+		return `{}`
+	case 1:
+		return db.DeletedDocument
+	}
+	return fmt.Sprintf(`{"k":"v%d"}`, key)
+}
+
+func c06BodyKey(text string) (int, bool) {
+	switch text {
+	case `{}`, "":
+		return 0, true
+	case db.DeletedDocument:
+		return 1, true
+	}
+	var m map[string]string
+	if json.Unmarshal([]byte(text), &m) == nil && len(m) == 1 && strings.HasPrefix(m["k"], "v") {
+		if n, err := strconv.Atoi(m["k"][1:]); err == nil {
+			return n, true
+		}
+	}
+	return 0, false
+}
+
+// ---- Coq emission
+func c06Rev(id string) string {
+	i := strings.IndexByte(id, '-')
+	if i < 0 {
+		return "(I 0 [])"
+	}
+	n, ok := new(big.Int).SetString(id[i+1:], 16)
+	if !ok {
+		return "(I 0 [])"
+	}
+	return "(I " + id[:i] + " [" + n.String() + "])"
+}
+func c06OptRev(id string) string {
+	if id == "" {
+		return "None"
+	}
+	return "(Some " + c06Rev(id) + ")"
+}
+func c06PObs(o c06Obs) (string, bool) {
+	if !o.Exists {
+		return "(PO None false None)", true
+	}
+	k, ok := c06BodyKey(o.Body)
+	return fmt.Sprintf("(PO %s %s (Some %d))", c06OptRev(o.Rev), cqBool(o.Deleted), k), ok
+}
+func c06Tree(t []c06Node) string {
+	items := make([]string, len(t))
+	for i, n := range t {
+		items[i] = fmt.Sprintf("R %s %s %s", c06Rev(n.ID), c06OptRev(n.Parent), cqBool(n.Deleted))
+	}
+	return cqList(items)
+}
+
+type c06Recorded struct {
+	ops    []string // Coq op terms
+	counts string
+	after  string
+	desc   map[string]any
+}
+
+type c06Runner struct {
+	e      *c06Env
+	steps  []c06Recorded
+	descs  []string
+	bodies map[int]bool
+	nConf  int // conflicts the passive side reported in the last one-shot push
+	abort  bool
+}
+
+func (r *c06Runner) snapshot() (string, []map[string]any, bool) {
+	items := []string{}
+	var js []map[string]any
+	ok := true
+	for i, d := range r.e.docs {
+		a, b := r.e.observe(0, d), r.e.observe(1, d)
+		sa, oka := c06PObs(a)
+		sb, okb := c06PObs(b)
+		ok = ok && oka && okb
+		items = append(items, fmt.Sprintf("(%d, %s, %s)", i, sa, sb))
+		js = append(js, map[string]any{"doc": i, "A": []any{a.Rev, a.Deleted, a.Body}, "B": []any{b.Rev, b.Deleted, b.Body}})
+	}
+	return cqList(items), js, ok
+}
+
+func (r *c06Runner) record(step c06Step, ops []string, counts string) {
+	after, js, ok := r.snapshot()
+	if !ok {
+		r.e.fail("unexpected document body after %s", step)
+		r.abort = true
+	}
+	r.steps = append(r.steps, c06Recorded{ops: ops, counts: counts, after: after,
+		desc: map[string]any{"step": step.String(), "after": js}})
+	r.descs = append(r.descs, step.String())
+}
+
+func c06Side(s int) string {
+	if s == 0 {
+		return "Act"
+	}
+	return "Pas"
+}
+
+func (r *c06Runner) syncOps() []string {
+	var ops []string
+	for i := range r.e.docs {
+		if r.e.sdir == "pull" {
+			ops = append(ops, fmt.Sprintf("Pull %d", i))
+		} else {
+			ops = append(ops, fmt.Sprintf("Pull %d", i), fmt.Sprintf("Push %d", i), fmt.Sprintf("Pull %d", i), fmt.Sprintf("Push %d", i))
+		}
+	}
+	return ops
+}
+
+func (r *c06Runner) allDocs(op string) []string {
+	var ops []string
+	for i := range r.e.docs {
+		ops = append(ops, fmt.Sprintf("%s %d", op, i))
+	}
+	return ops
+}
+
+// run one step on the implementation; returns false when the scenario has to be abandoned
+func (r *c06Runner) do(s c06Step) bool {
+	e := r.e
+	switch s.Kind {
+	case "w":
+		if !e.write(s.Side, e.docs[s.Doc], s.W, c06BodyText(s.Body)) {
+			return false
+		}
+		var op string
+		switch s.W {
+		case c06Edit:
+			op = fmt.Sprintf("Edit %s %d %d", c06Side(s.Side), s.Doc, s.Body)
+			r.bodies[s.Body] = true
+		case c06Delete:
+			op = fmt.Sprintf("Delete %s %d", c06Side(s.Side), s.Doc)
+		default:
+			op = fmt.Sprintf("Resurrect %s %d %d", c06Side(s.Side), s.Doc, s.Body)
+			r.bodies[s.Body] = true
+		}
+		ops := []string{op}
+		if e.srun {
+			if !e.waitQuiescent() {
+				return false
+			}
+			ops = append(ops, r.syncOps()...)
+		}
+		r.record(s, ops, "None")
+	case "pull":
+		st, ok := e.oneShot(db.ActiveReplicatorTypePull)
+		if !ok {
+			return false
+		}
+		r.record(s, r.allDocs("Pull"), fmt.Sprintf("(Some (%d, %d))", st.DocsRead, st.RejectedLocal))
+	case "push":
+		st, ok := e.oneShot(db.ActiveReplicatorTypePush)
+		if !ok {
+			return false
+		}
+		r.nConf = int(st.DocWriteConflict)
+		r.record(s, r.allDocs("Push"), fmt.Sprintf("(Some (%d, %d))", st.DocsWritten, st.DocWriteConflict))
+	case "start", "restart":
+		if s.Kind == "restart" {
+			if !e.sessionStop() {
+				return false
+			}
+		}
+		if !e.sessionStart(s.Dir) || !e.waitQuiescent() {
+			return false
+		}
+		r.record(s, r.syncOps(), "None")
+	case "stop":
+		if !e.sessionStop() {
+			return false
+		}
+		r.record(s, nil, "None")
+	}
+	return !r.abort
+}
+
+// the digest table: every revision of the final trees explained as md5(parent, one of the bodies in play)
+func (r *c06Runner) digestTable(trees [][2]c06Obs) (string, bool) {
+	keys := []int{0, 1}
+	for k := range r.bodies {
+		keys = append(keys, k)
+	}
+	sort.Ints(keys)
+	seen := map[string]bool{}
+	var items []string
+	ok := true
+	for _, pair := range trees {
+		for _, o := range pair {
+			for _, n := range o.Tree {
+				if seen[n.ID] {
+					continue
+				}
+				seen[n.ID] = true
+				gen, _ := db.ParseRevID(r.e.act.Context(), n.ID)
+				found := false
+				for _, k := range keys {
+					if db.CreateRevIDWithBytes(gen, n.Parent, []byte(c06BodyText(k))) == n.ID {
+						i := strings.IndexByte(n.ID, '-')
+						v, _ := new(big.Int).SetString(n.ID[i+1:], 16)
+						items = append(items, fmt.Sprintf("(%s, %d, %s)", c06OptRev(n.Parent), k, v.String()))
+						found = true
+						break
+					}
+				}
+				if !found {
+					ok = false
+					r.e.fail("revision %s (parent %q) is not the digest of any body in play", n.ID, n.Parent)
+				}
+			}
+		}
+	}
+	sort.Strings(items)
+	return cqList(items), ok
+}
+
+func c06Plan(rng *vRand, n int, ndocs int) []c06Step {
+	// only the shape is planned here; the write kind is decided at run time from the document's state
+	var plan []c06Step
+	sess, running := "", false
+	for len(plan) < n {
+		x := rng.Intn(100)
+		switch {
+		case x < 62:
+			plan = append(plan, c06Step{Kind: "w", Side: rng.Intn(2), Doc: rng.Intn(ndocs), W: rng.Intn(100), Body: 2 + rng.Intn(4)})
+		case x < 72 && !running:
+			plan = append(plan, c06Step{Kind: "pull"})
+		case x < 82 && !running:
+			plan = append(plan, c06Step{Kind: "push"})
+		case x >= 82 && x < 94:
+			if !running {
+				if sess == "" {
+					sess = []string{"both", "both", "pull"}[rng.Intn(3)]
+				}
+				plan = append(plan, c06Step{Kind: "start", Dir: sess})
+				running = true
+			} else if rng.Bool() {
+				plan = append(plan, c06Step{Kind: "stop"})
+				running = false
+			} else {
+				plan = append(plan, c06Step{Kind: "restart", Dir: sess})
+			}
+		}
+	}
+	return plan
+}
+
+// decide the write kind from what the side holds now: W is a percentage drawn by the planner
+func (r *c06Runner) concretise(s c06Step) c06Step {
+	if s.Kind != "w" {
+		return s
+	}
+	if s.W < 0 {
+		s.W = -s.W - 1
+		return s
+	}
+	cur := r.e.observe(s.Side, r.e.docs[s.Doc])
+	switch {
+	case !cur.Exists:
+		s.W = c06Edit
+	case cur.Deleted:
+		s.W = c06Resurrect
+	case s.W < 30:
+		s.W = c06Delete
+	default:
+		s.W = c06Edit
+	}
+	return s
+}
+
+// corpus steps use explicit kinds, encoded as negative W so that concretise leaves them alone
+func c06W(side, doc, kind, body int) c06Step {
+	return c06Step{Kind: "w", Side: side, Doc: doc, W: -kind - 1, Body: body}
+}
+
+type c06Scenario struct {
+	name string
+	plan []c06Step
+}
+
+func c06Corpus() []c06Scenario {
+	A, B := 0, 1
+	pull, push := c06Step{Kind: "pull"}, c06Step{Kind: "push"}
+	return []c06Scenario{
+		// plain transfers, both directions, three documents
+		{"ff", []c06Step{c06W(A, 0, c06Edit, 2), c06W(B, 1, c06Edit, 3), c06W(A, 0, c06Edit, 3), push, pull, c06W(B, 0, c06Edit, 4), c06W(A, 1, c06Delete, 0), pull, push}},
+		// equal-generation conflict, both outcomes of the digest tie-break (doc 0 / doc 1), longer local branch (doc 2)
+		{"conflict", []c06Step{c06W(A, 0, c06Edit, 2), c06W(B, 0, c06Edit, 3), c06W(A, 1, c06Edit, 3), c06W(B, 1, c06Edit, 2),
+			c06W(A, 2, c06Edit, 2), c06W(A, 2, c06Edit, 4), c06W(B, 2, c06Edit, 5), pull, push}},
+		// tombstone against edit, both ways; tombstone against tombstone
+		{"tombstones", []c06Step{c06W(A, 0, c06Edit, 2), c06W(A, 1, c06Edit, 2), c06W(A, 2, c06Edit, 2), push,
+			c06W(A, 0, c06Delete, 0), c06W(B, 0, c06Edit, 3), c06W(B, 1, c06Delete, 0), c06W(A, 1, c06Edit, 3),
+			c06W(A, 2, c06Delete, 0), c06W(B, 2, c06Edit, 4), c06W(B, 2, c06Delete, 0), pull, push}},
+		// local tombstone longer than the remote branch: filler revisions
+		{"fillers", []c06Step{c06W(A, 0, c06Edit, 2), push, c06W(A, 0, c06Edit, 3), c06W(A, 0, c06Edit, 4), c06W(A, 0, c06Delete, 0),
+			c06W(B, 0, c06Edit, 5), pull, push}},
+		// the two divergences the model exposes (see C06_Refuted.v)
+		{"delete-after-local-wins", []c06Step{c06W(A, 0, c06Edit, 2), c06W(A, 0, c06Edit, 2), c06W(B, 0, c06Edit, 3), pull, c06W(A, 0, c06Delete, 0)}},
+		{"resurrect-after-remote-delete", []c06Step{c06W(A, 0, c06Edit, 2), c06W(A, 0, c06Edit, 2), c06W(B, 0, c06Edit, 2), c06W(B, 0, c06Delete, 0), pull, c06W(A, 0, c06Resurrect, 4)}},
+		// continuous sessions: start, write on both sides, stop, write, restart
+		{"session-both", []c06Step{c06W(A, 0, c06Edit, 2), c06W(B, 1, c06Edit, 3), {Kind: "start", Dir: "both"}, c06W(B, 0, c06Edit, 3), c06W(A, 1, c06Edit, 4),
+			{Kind: "stop"}, c06W(A, 0, c06Edit, 5), c06W(B, 0, c06Edit, 4), c06W(B, 1, c06Delete, 0), {Kind: "start", Dir: "both"}, c06W(A, 2, c06Edit, 2)}},
+		{"session-pull", []c06Step{c06W(B, 0, c06Edit, 2), {Kind: "start", Dir: "pull"}, c06W(A, 0, c06Edit, 3), c06W(B, 0, c06Edit, 4), {Kind: "restart", Dir: "pull"}, c06W(B, 1, c06Edit, 2), c06W(A, 1, c06Edit, 3)}},
+	}
+}
+
+func c06StateSig(a, b c06Obs, pushConflict bool) string {
+	s := "diverged:A=" + a.state() + ",B=" + b.state()
+	if a.state() == b.state() {
+		s += ",different-revision"
+	}
+	if pushConflict {
+		s += ",push-rejected-409"
+	}
+	return s
+}
+
+func c06Proto(v4 bool) string {
+	if v4 {
+		return "version-vector(v4)"
+	}
+	return "revtree(v3)"
+}
+
+// run a scenario; emits one Coq case (revision-tree streams) and evaluates the monitors
+func c06RunScenario(t *testing.T, rec *vRecorder, stream string, sc c06Scenario, v4 bool, coq bool) {
+	e := c06NewEnv(t, v4, 3, "")
+	r := &c06Runner{e: e, bodies: map[int]bool{}}
+	hasDelete, hasConflictShape := false, false
+	for _, s := range sc.plan {
+		s = r.concretise(s)
+		if s.Kind == "w" && s.W != c06Edit {
+			hasDelete = true
+		}
+		if !r.do(s) {
+			break
+		}
+	}
+	if len(e.infra) == 0 && e.srun {
+		if e.sessionStop() {
+			r.record(c06Step{Kind: "stop"}, nil, "None")
+		}
+	}
+	// catch up: pull, then push; then both again, which must transfer nothing
+	var again [2]db.ReplicationStatus
+	if len(e.infra) == 0 {
+		ok := r.do(c06Step{Kind: "pull"}) && r.do(c06Step{Kind: "push"})
+		pushConflicts := r.nConf
+		if ok {
+			var ok1, ok2 bool
+			again[0], ok1 = e.oneShot(db.ActiveReplicatorTypePull)
+			if ok1 {
+				r.record(c06Step{Kind: "pull"}, r.allDocs("Pull"), fmt.Sprintf("(Some (%d, %d))", again[0].DocsRead, again[0].RejectedLocal))
+				again[1], ok2 = e.oneShot(db.ActiveReplicatorTypePush)
+				if ok2 {
+					r.record(c06Step{Kind: "push"}, r.allDocs("Push"), fmt.Sprintf("(Some (%d, %d))", again[1].DocsWritten, again[1].DocWriteConflict))
+				}
+			}
+			ok = ok1 && ok2
+		}
+		if ok && len(e.infra) == 0 {
+			input := map[string]any{"protocol": c06Proto(v4), "scenario": sc.name, "steps": r.descs}
+			var finals [][2]c06Obs
+			for i, d := range e.docs {
+				a, b := e.observe(0, d), e.observe(1, d)
+				finals = append(finals, [2]c06Obs{a, b})
+				hasConflictShape = hasConflictShape || (len(a.Tree) > 1 && len(a.Tree) != len(b.Tree))
+				same := a.Exists == b.Exists && a.Deleted == b.Deleted && a.Body == b.Body
+				if v4 {
+					same = same && a.CV == b.CV
+				} else {
+					same = same && a.Rev == b.Rev
+				}
+				if !same {
+					rec.Fail("peers_converged", c06StateSig(a, b, pushConflicts > 0), input,
+						fmt.Sprintf("doc %d after the final pull;push: active {rev %s cv %s deleted %v body %s} passive {rev %s cv %s deleted %v body %s}; push reported %d conflict(s)",
+							i, a.Rev, a.CV, a.Deleted, a.Body, b.Rev, b.CV, b.Deleted, b.Body, pushConflicts))
+				}
+				// the admin REST API shows the same thing as the stored document
+				for side, o := range []c06Obs{a, b} {
+					code, rev, _, body := e.adminView(side, d)
+					want := 200
+					if !o.Exists || o.Deleted {
+						want = 404
+					}
+					if code != want || (code == 200 && (rev != o.Rev || body != o.Body)) {
+						rec.Fail("admin_api_consistent", "admin-get-differs", input, fmt.Sprintf("doc %d side %d: GET -> %d rev %s body %s; stored rev %s deleted %v body %s", i, side, code, rev, body, o.Rev, o.Deleted, o.Body))
+					}
+				}
+			}
+			if again[0].DocsRead != 0 || again[1].DocsWritten != 0 {
+				rec.Fail("caught_up_no_transfer", fmt.Sprintf("rerun-transfers:read=%d,written=%d", again[0].DocsRead, again[1].DocsWritten), input,
+					fmt.Sprintf("re-running the caught-up replication read %d and wrote %d documents (checked %d/%d)", again[0].DocsRead, again[1].DocsWritten, again[0].DocsCheckedPull, again[1].DocsCheckedPush))
+			}
+			nontrivial := hasConflictShape || hasDelete
+			if coq {
+				tbl, okT := r.digestTable(finals)
+				if okT {
+					var steps, fin []string
+					var descSteps []any
+					for _, s := range r.steps {
+						steps = append(steps, fmt.Sprintf("St %s %s %s", cqList(s.ops), s.counts, s.after))
+						descSteps = append(descSteps, s.desc)
+					}
+					for i, f := range finals {
+						fin = append(fin, fmt.Sprintf("(%d, %s, %s)", i, c06Tree(f[0].Tree), c06Tree(f[1].Tree)))
+					}
+					term := fmt.Sprintf("CScen %s\n    %s\n    %s", tbl, cqList(steps), cqList(fin))
+					rec.Case(stream, "scenario", term, map[string]any{"scenario": sc.name, "steps": descSteps}, nontrivial)
+				}
+			} else {
+				rec.Count(stream, "scenario", sc.name+strings.Join(r.descs, ";"), nontrivial)
+			}
+			for _, d := range r.descs {
+				rec.Size(strings.Fields(d)[0])
+			}
+		}
+	}
+	for _, m := range e.infra {
+		rec.Err("infrastructure: " + strings.SplitN(m, ":", 2)[0])
+		t.Logf("C06 %s/%s abandoned: %s", stream, sc.name, m)
+	}
+}
+
+// burst: writes on both sides without waiting while a continuous push-and-pull replication runs
+func c06RunBurst(t *testing.T, rec *vRecorder, rng *vRand, v4 bool, idx int) {
+	e := c06NewEnv(t, v4, 2, "")
+	stream := "burst"
+	if v4 {
+		stream = "burst-vv"
+	}
+	var descs []string
+	if !e.sessionStart("both") {
+		rec.Err("infrastructure: burst start")
+		return
+	}
+	n := 4 + rng.Intn(5)
+	for i := 0; i < n; i++ {
+		side, doc := rng.Intn(2), rng.Intn(len(e.docs))
+		cur := e.observe(side, e.docs[doc])
+		kind := c06Edit
+		if cur.Exists && cur.Deleted {
+			kind = c06Resurrect
+		} else if cur.Exists && rng.Chance(20) {
+			kind = c06Delete
+		}
+		body := 2 + rng.Intn(4)
+		// a write may lose a race against the replicator (409): that is not a failure, retry on the new state
+		rt := e.rt(side)
+		path := "/" + rt.GetSingleKeyspace() + "/" + e.docs[doc]
+		for attempt := 0; attempt < 3; attempt++ {
+			cur = e.observe(side, e.docs[doc])
+			var resp *TestResponse
+			switch {
+			case kind == c06Delete && cur.Exists && !cur.Deleted:
+				resp = rt.SendAdminRequest(http.MethodDelete, path+"?rev="+cur.Rev, "")
+			case cur.Exists && !cur.Deleted:
+				resp = rt.SendAdminRequest(http.MethodPut, path+"?rev="+cur.Rev, c06BodyText(body))
+			default:
+				resp = rt.SendAdminRequest(http.MethodPut, path, c06BodyText(body))
+			}
+			if resp.Code == 200 || resp.Code == 201 {
+				break
+			}
+		}
+		descs = append(descs, c06Step{Kind: "w", Side: side, Doc: doc, W: kind, Body: body}.String())
+		if rng.Chance(30) {
+			time.Sleep(time.Duration(rng.Intn(30)) * time.Millisecond)
+		}
+	}
+	if !e.waitQuiescent() || !e.sessionStop() {
+		rec.Err("infrastructure: burst quiescence")
+		return
+	}
+	// catch up once more with one-shot runs, then re-run
+	_, ok1 := e.oneShot(db.ActiveReplicatorTypePull)
+	q1, ok2 := e.oneShot(db.ActiveReplicatorTypePush)
+	p2, ok3 := e.oneShot(db.ActiveReplicatorTypePull)
+	q2, ok4 := e.oneShot(db.ActiveReplicatorTypePush)
+	if !(ok1 && ok2 && ok3 && ok4) {
+		rec.Err("infrastructure: burst catch-up")
+		return
+	}
+	input := map[string]any{"protocol": c06Proto(v4), "scenario": fmt.Sprintf("burst-%d", idx), "steps": descs, "mode": "continuous pushAndPull, writes not awaited"}
+	for i, d := range e.docs {
+		a, b := e.observe(0, d), e.observe(1, d)
+		same := a.Exists == b.Exists && a.Deleted == b.Deleted && a.Body == b.Body
+		if v4 {
+			same = same && a.CV == b.CV
+		} else {
+			same = same && a.Rev == b.Rev
+		}
+		if !same {
+			rec.Fail("peers_converged", c06StateSig(a, b, q1.DocWriteConflict > 0), input,
+				fmt.Sprintf("doc %d at quiescence: active {rev %s cv %s deleted %v body %s} passive {rev %s cv %s deleted %v body %s}", i, a.Rev, a.CV, a.Deleted, a.Body, b.Rev, b.CV, b.Deleted, b.Body))
+		}
+	}
+	if p2.DocsRead != 0 || q2.DocsWritten != 0 {
+		rec.Fail("caught_up_no_transfer", fmt.Sprintf("rerun-transfers:read=%d,written=%d", p2.DocsRead, q2.DocsWritten), input, "re-running the caught-up replication transferred documents")
+	}
+	rec.Count(stream, "burst", strings.Join(descs, ";"), true)
+	for _, m := range e.infra {
+		rec.Err("infrastructure: " + strings.SplitN(m, ":", 2)[0])
+	}
+}
+
+// ---------------------------------------------------------------- resolver stream
+
+func c06ResolverStream(t *testing.T, rec *vRecorder, rng *vRand) {
+	ctx := base.TestCtx(t)
+	digs := []string{"0a", "a0", "a00", "b", "ff", "7f3c", "7f3d"}
+	mk := func() (bool, string) {
+		return rng.Chance(35), fmt.Sprintf("%d-%s", 1+rng.Intn(4), digs[rng.Intn(len(digs))])
+	}
+	rev := func(id string) string {
+		i := strings.IndexByte(id, '-')
+		return "(I " + id[:i] + " " + cqStr(id[i+1:]) + ")"
+	}
+	n := vBudget(300, 3000)
+	for i := 0; i < n; i++ {
+		ld, l := mk()
+		rd, r := mk()
+		run := func(ld bool, l string, rd bool, r string) (string, bool) {
+			c := db.Conflict{LocalDocument: db.Body{db.BodyRev: l, db.BodyDeleted: ld, "side": "local"},
+				RemoteDocument: db.Body{db.BodyRev: r, db.BodyDeleted: rd, "side": "remote"}}
+			w, err := db.DefaultConflictResolver(ctx, c)
+			if err != nil || w == nil {
+				return "error", false
+			}
+			return w[db.BodyRev].(string), w["side"] == "local"
+		}
+		w1, localWon := run(ld, l, rd, r)
+		w2, _ := run(rd, r, ld, l)
+		rec.Case("resolver", "resolver", fmt.Sprintf("CResolver %s %s %s %s %s", cqBool(ld), rev(l), cqBool(rd), rev(r), cqBool(localWon)),
+			map[string]any{"local": []any{ld, l}, "remote": []any{rd, r}, "local_won": localWon}, ld != rd || l[:1] == r[:1])
+		if l != r && w1 != w2 {
+			rec.Fail("resolver_symmetric", "resolver-choice-depends-on-side", map[string]any{"x": []any{ld, l}, "y": []any{rd, r}},
+				fmt.Sprintf("local=x remote=y keeps %s, local=y remote=x keeps %s", w1, w2))
+		}
+	}
+}
+
+// ---------------------------------------------------------------- entry point
+
 func TestVerifC06(t *testing.T) {
 	base.RequireNumTestBuckets(t, 2)
-	scen := [][]string{
-		{"wA:a", "dA", "wB:b", "pull", "dA", "pull", "push"},
-		{"wB:a", "wA:b", "dB", "push", "dA", "pull", "push", "wA:c", "pull", "push"},
-		{"wA:a", "wA:a", "wB:b", "pull", "dA", "pull", "push"},
-		{"wA:a", "wA:a", "wB:a", "dB", "pull", "wA:c", "pull", "push"},
+	rec := vNewRecorder(t, "C06", "C06.C06_Corr")
+	defer rec.Finish()
+	rng := vNewRand(vSeed()*7919 + 6)
+	start := time.Now()
+
+	c06ResolverStream(t, rec, rng)
+
+	for _, sc := range c06Corpus() {
+		sc := sc
+		t.Run("corpus-"+sc.name, func(t *testing.T) { c06RunScenario(t, rec, "corpus", sc, false, true) })
 	}
-	v4 := os.Getenv("C06_V4") != ""
-	scen = scen[2:]
-	for i, sc := range scen {
-	  t.Run(fmt.Sprintf("s%d", i), func(t *testing.T) {
-		t0 := time.Now()
-		e := c06NewEnv(t, v4)
-		t.Logf("scenario %d setup %.2fs", i, time.Since(t0).Seconds())
-		doc := "doc1"
-		for _, op := range sc {
-			t1 := time.Now()
-			var info string
-			switch {
-			case strings.HasPrefix(op, "wA:"), strings.HasPrefix(op, "wB:"):
-				side := 0
-				if op[1] == 'B' {
-					side = 1
-				}
-				c, r := e.write(side, doc, `{"k":"`+op[3:]+`"}`, false)
-				info = fmt.Sprintf("%d %s", c, r)
-			case op == "dA" || op == "dB":
-				side := 0
-				if op[1] == 'B' {
-					side = 1
-				}
-				c, r := e.write(side, doc, "", true)
-				info = fmt.Sprintf("%d %s", c, r)
-			case op == "pull":
-				st, ok := e.oneShot(db.ActiveReplicatorTypePull)
-				info = fmt.Sprintf("ok=%v read=%d checked=%d rejected=%d", ok, st.DocsRead, st.DocsCheckedPull, st.RejectedLocal)
-			case op == "push":
-				st, ok := e.oneShot(db.ActiveReplicatorTypePush)
-				info = fmt.Sprintf("ok=%v written=%d checked=%d fail=%d conflict=%d rejected=%d", ok, st.DocsWritten, st.DocsCheckedPush, st.DocWriteFailures, st.DocWriteConflict, st.RejectedRemote)
-			}
-			a, b := e.observe(0, doc), e.observe(1, doc)
-			t.Logf("  %-6s %-60s (%.2fs)\n      A: %s del=%v body=%s tree=%v\n      B: %s del=%v body=%s tree=%v", op, info, time.Since(t1).Seconds(),
-				a.Rev, a.Deleted, a.Body, a.Tree, b.Rev, b.Deleted, b.Body, b.Tree)
-		}
-		t.Logf("infra: %v", e.infra)
-	  })
+	nRandom := vBudget(10, 80)
+	for i := 0; i < nRandom; i++ {
+		sc := c06Scenario{name: fmt.Sprintf("random-%d-%d", vSeed(), i), plan: c06Plan(rng, 5+rng.Intn(6), 3)}
+		t.Run(sc.name, func(t *testing.T) { c06RunScenario(t, rec, "random", sc, false, true) })
 	}
+	nBurst := vBudget(3, 24)
+	for i := 0; i < nBurst; i++ {
+		i := i
+		t.Run(fmt.Sprintf("burst-%d", i), func(t *testing.T) { c06RunBurst(t, rec, rng, false, i) })
+	}
+	// version-vector protocol: same shapes, monitors only
+	nVV := vBudget(3, 24)
+	for i := 0; i < nVV; i++ {
+		sc := c06Scenario{name: fmt.Sprintf("vv-%d-%d", vSeed(), i), plan: c06Plan(rng, 5+rng.Intn(6), 3)}
+		t.Run(sc.name, func(t *testing.T) { c06RunScenario(t, rec, "vv", sc, true, false) })
+	}
+	for i := 0; i < vBudget(1, 8); i++ {
+		i := i
+		t.Run(fmt.Sprintf("burst-vv-%d", i), func(t *testing.T) { c06RunBurst(t, rec, rng, true, i) })
+	}
+	rec.Extra("wall_s", time.Since(start).Seconds())
+	rec.Extra("exhaustive", false)
 }
